@@ -64,6 +64,14 @@ func scenarioC08(r *Run) {
 		w.restartEnd = sEnd2
 	}
 	w.start()
+	if w.restartEnd == nil {
+		// more than one caller waits for the server, some of them from early on
+		// (not when the server is restarted the moment the first waiter returns:
+		// a slower waiter would then be looking at the second life)
+		for i, n := 0, g.Weighted("observers", []int{5, 3, 2}); i < n; i++ {
+			w.observe(fmt.Sprintf("w-obs%d", i), g.Chance("obswait", 0.4), g.Int("obsdelay", 30))
+		}
+	}
 	if !w.drive(nil) {
 		return
 	}
@@ -72,6 +80,18 @@ func scenarioC08(r *Run) {
 	}
 	w.qpoints = append(w.qpoints, w.seq())
 	w.checkC08(active0)
+	if r.Failed() {
+		return
+	}
+	if w.restartEnd == nil && w.status != nil {
+		// and callers that come after the server has ended
+		w.observe("w-late0", false, 0)
+		w.observe("w-late1", true, 0)
+		if !r.RunQ() {
+			return
+		}
+	}
+	w.checkObservers()
 	if r.Failed() {
 		return
 	}
@@ -132,19 +152,31 @@ func (w *srvWorld) checkC08(active0 string) {
 			}
 		}
 	}
-	allowed := map[string]bool{}
+	// A failed Send may or may not end the server. When the server demonstrably
+	// went on serving afterwards - past a quiescent point that follows the
+	// failure, it accepted another request for dispatch or sent another record -
+	// that failure did not end it, and is not what WaitStatus may report.
+	var causes []stopCause
 	for _, c := range w.causes {
+		if c.Optional && w.servedAfter(c) {
+			r.Probe("send-failure-survived")
+			continue
+		}
+		causes = append(causes, c)
+	}
+	allowed := map[string]bool{}
+	for _, c := range causes {
 		if c.Begin < w.waitSeq {
 			allowed[c.Kind] = true
 		}
 	}
 	must := ""
-	for _, a := range w.causes {
+	for _, a := range causes {
 		if a.End < 0 || a.Optional {
 			continue
 		}
 		first := true
-		for _, b := range w.causes {
+		for _, b := range causes {
 			if b != a && b.Begin <= a.End {
 				first = false
 			}
@@ -365,4 +397,33 @@ func (w *srvWorld) restartProbe(active0 string, sEnd, pEnd *End) {
 		return
 	}
 	w.census("after restart")
+}
+
+// servedAfter reports whether the server went on serving after the (optional)
+// cause c: after the first quiescent point following c, and before WaitStatus
+// returned, a handler was entered or the server passed another record to Send.
+func (w *srvWorld) servedAfter(c stopCause) bool {
+	qp := -1
+	for _, q := range w.qpoints {
+		if q > c.Begin {
+			qp = q
+			break
+		}
+	}
+	if qp < 0 {
+		return false
+	}
+	for _, msg := range w.msgs {
+		for _, m := range msg.Members {
+			if m.Enter > qp && m.Enter < w.waitSeq {
+				return true
+			}
+		}
+	}
+	for _, o := range w.out {
+		if o.Seq > qp && o.Seq < w.waitSeq {
+			return true
+		}
+	}
+	return false
 }
